@@ -750,3 +750,227 @@ def case_c11(bindir, seed, index, tier, extra):
 def replay_c11(bindir, rp):
     vs, _, _ = exec_case_c11(bindir, rp["case"])
     return [(c, d) for (c, d, i) in vs]
+
+
+# ================================================================================================
+# C35: declared output hashes enforced
+
+
+def _hex(algo, data):
+    import hashlib
+    return hashlib.new(algo, data).hexdigest()
+
+
+def c35_target(shape, content, declared, binary=False):
+    """A genrule with fixed, known output bytes."""
+    t = {"name": "h", "kind": "genrule", "srcs": [], "outs": [], "salt": "x", "hashes": declared, "binary": binary}
+    if shape == "file":
+        t["outs"] = ["h.out"]
+        t["body"] = 'printf "%s" > "$OUT"; ' % content
+    elif shape == "multi":
+        t["outs"] = ["h1.out", "h2.out"]
+        t["body"] = 'printf "%s" > h1.out; printf "%s-2" > h2.out; ' % (content, content)
+    else:
+        t["outs"] = ["hd"]
+        t["body"] = 'mkdir -p "$OUT/s"; printf "%s" > "$OUT/a"; printf "%s-b" > "$OUT/s/b"; ' % (content, content)
+    return t
+
+
+def c35_spec(t, cache, log, compress):
+    spec = rs.new_spec()
+    spec["config"]["cache"] = cache
+    spec["config"]["dircompress"] = compress
+    t = dict(t)
+    t["cmd"] = 'echo "S //h:h" >> %s; %s echo "E //h:h ok" >> %s' % (log, t["body"], log)
+    spec["pkgs"]["h"] = {"files": {}, "targets": [t], "use_defs": False}
+    return spec
+
+
+def learn_hashes(w, shape, content, seed):
+    """True output hashes per algorithm. Single files: computed here with hashlib. Several files or a
+    directory: read from the message plz prints for a deliberately wrong declaration."""
+    if shape == "file":
+        return {"sha1": _hex("sha1", content.encode()), "sha256": _hex("sha256", content.encode())}
+    spec = c35_spec(c35_target(shape, content, ["0" * 40]), None, w.log, False)
+    d = w.sc.path("learn")
+    os.makedirs(d, exist_ok=True)
+    rs.materialise(spec, d, w.log)
+    res = simlib.run_plz(w.bindir, d, ["build", "//h:h"] + hl.BASE_ARGS, seed, w.home, w.sc.path("ltrace"), policy="first")
+    found = {}
+    import re
+    for m in re.finditer(r"(sha1|sha256|blake3): ([0-9a-f]+)", res.stderr):
+        found[m.group(1)] = m.group(2)
+    shutil.rmtree(d, ignore_errors=True)
+    return found
+
+
+def gen_case_c35(seed, tier):
+    rng = Rng(seed)
+    shape = rng.choice(["file", "file", "multi", "dir"])
+    content = "payload-%d" % rng.intn(100000)
+    return {"seed": seed, "shape": shape, "content": content, "decl_kind": rng.choice(["correct-sha1", "correct-sha256", "prefixed", "prefixed-space", "near-miss", "wrong-length", "other-output", "two-one-correct", "uppercase"]),
+            "scenario": rng.choice(["build", "build", "cache-corrupt", "cache-stale-decl", "rebuild-after-fail"]), "compress": rng.chance(0.5), "binary": rng.chance(0.2),
+            "corrupt": rng.choice(["flip", "truncate", "swap"])}
+
+
+def declared_for(kind, true, rng):
+    s1, s256 = true.get("sha1", "0" * 40), true.get("sha256", "0" * 64)
+    if kind == "correct-sha1":
+        return [s1], True
+    if kind == "correct-sha256":
+        return [s256], True
+    if kind == "prefixed":
+        return ["sha256:" + s256], True
+    if kind == "prefixed-space":
+        return ["sha1: " + s1], True
+    if kind == "near-miss":
+        c = "0" if s1[-1] != "0" else "1"
+        return [s1[:-1] + c], False
+    if kind == "wrong-length":
+        return [s1[:-2], s256 + "00"], False
+    if kind == "other-output":
+        return [_hex("sha1", b"something else entirely")], False
+    if kind == "two-one-correct":
+        return [_hex("sha256", b"nope"), s1], True
+    if kind == "uppercase":
+        return [s1.upper()], None   # not specified whether case-insensitive: either outcome accepted, consistency still required
+    return [s1], True
+
+
+def exec_case_c35(bindir, case):
+    out = []
+    w = hl.World(bindir, "c35")
+    try:
+        rng = Rng(subseed(case["seed"], "c35"))
+        true = learn_hashes(w, case["shape"], case["content"], case["seed"])
+        if "sha1" not in true:
+            raise simlib.Infra("could not learn output hashes for shape %s: %s" % (case["shape"], true))
+        declared, ok = declared_for(case["decl_kind"], true, rng)
+        use_cache = case["scenario"].startswith("cache")
+        cache = w.sc.path("cache") if use_cache else None
+        args = ["build", "//h:h"] + hl.BASE_ARGS
+        t = c35_target(case["shape"], case["content"], declared, case["binary"])
+        spec = c35_spec(t, cache, w.log, case["compress"])
+        w.write(spec)
+        base = "plz-out/bin/h" if case["binary"] else "plz-out/gen/h"
+
+        def outputs_ok():
+            """do the outputs in plz-out hash to the true value?"""
+            if case["shape"] == "file":
+                p = os.path.join(w.repo, base, "h.out")
+                return os.path.exists(p) and _hex("sha1", open(p, "rb").read()) == true["sha1"]
+            snap = [simlib.snapshot(os.path.join(w.repo, base, o)) for o in t["outs"]]
+            return snap == ref_snap[0]
+        ref_snap = [None]
+
+        def build(tag, expect_ok):
+            res, log = w.plz(args, subseed(case["seed"], tag))
+            if res.exit == simlib.EXIT_HANG:
+                out.append(("hang", "%s: build did not terminate" % tag, None))
+                return res, log
+            if expect_ok is True and res.exit != 0:
+                out.append(("correct-hash-rejected", "%s: declared %s contains the true hash (%s) but the build failed: %s" % (tag, declared, true, res.stderr[-400:]), None))
+            if expect_ok is False and res.exit == 0:
+                out.append(("wrong-hash-accepted", "%s: declared %s does not contain the output's hash under any configured algorithm (%s) but the build succeeded" % (tag, declared, true), None))
+            return res, log
+
+        res, log = build("first", ok)
+        if out:
+            return out, w.stats, w.sigs
+        first_ok = res.exit == 0
+        if first_ok and case["shape"] != "file":
+            ref_snap[0] = [simlib.snapshot(os.path.join(w.repo, base, o)) for o in t["outs"]]
+        if first_ok and case["shape"] == "file" and not outputs_ok():
+            out.append(("verified-but-wrong-bytes", "build succeeded but the output does not hash to a declared value", None))
+            return out, w.stats, w.sigs
+        sc = case["scenario"]
+        if not first_ok:
+            # a failed verification must not leave anything a later build treats as verified
+            res2, _ = build("again-after-failure", False if ok is False else None)
+            if res2.exit == 0 and not out:
+                out.append(("mismatch-forgotten", "the first build failed hash verification (declared %s, true %s) but building again without any change succeeded" % (declared, true), None))
+            if not out and sc == "rebuild-after-fail":
+                shutil.rmtree(os.path.join(w.repo, "plz-out"), ignore_errors=True)
+                res3, _ = build("after-rm-plz-out", False if ok is False else None)
+                if res3.exit == 0 and not out:
+                    out.append(("mismatch-forgotten", "verification failed, plz-out was removed, and the next build succeeded with the same wrong declaration", None))
+            return out, w.stats, w.sigs
+        if sc == "cache-corrupt":
+            # corrupt the stored artifact, drop plz-out, build again: success is only acceptable with correct outputs
+            n = corrupt_cache(w.sc.path("cache"), case["corrupt"], rng)
+            w.stats["cache_entries_corrupted"] = w.stats.get("cache_entries_corrupted", 0) + n
+            shutil.rmtree(os.path.join(w.repo, "plz-out"), ignore_errors=True)
+            res2, log2 = w.plz(args, subseed(case["seed"], "after-corrupt"))
+            if res2.exit == 0 and not outputs_ok():
+                out.append(("corrupt-artifact-accepted", "a cache entry was corrupted (%s); the next build restored it and succeeded although the outputs no longer hash to a declared value %s" % (case["corrupt"], declared), None))
+            elif res2.exit != 0:
+                w.stats["corrupt_restore_rejected"] = w.stats.get("corrupt_restore_rejected", 0) + 1
+                # and the rejected artifact must not be trusted next time either
+                res3, _ = w.plz(args, subseed(case["seed"], "after-corrupt-2"))
+                if res3.exit == 0 and not outputs_ok():
+                    out.append(("rejected-artifact-trusted-later", "a corrupted cache entry was rejected once, but the following build succeeded with outputs that do not hash to a declared value", None))
+        elif sc == "cache-stale-decl":
+            # change the declaration to a wrong value; the stored artifact must not satisfy it
+            t2 = c35_target(case["shape"], case["content"], [_hex("sha1", b"a different expectation")], case["binary"])
+            w.write(c35_spec(t2, cache, w.log, case["compress"]))
+            shutil.rmtree(os.path.join(w.repo, "plz-out"), ignore_errors=True)
+            res2, _ = w.plz(args, subseed(case["seed"], "stale-decl"))
+            if res2.exit == 0:
+                out.append(("wrong-hash-accepted", "after changing the declared hash to a value the output does not have, the build (restoring from cache) succeeded", None))
+        else:
+            # no-op build must stay verified and green
+            res2, log2 = w.plz(args, subseed(case["seed"], "noop"))
+            if res2.exit != 0:
+                out.append(("verified-then-rejected", "the build succeeded, and an immediate second build of the unchanged tree failed: %s" % res2.stderr[-300:], None))
+        return out, w.stats, w.sigs
+    finally:
+        w.close()
+
+
+def corrupt_cache(cdir, how, rng):
+    """Damages every stored artifact file under the cache directory. Returns the number of files touched."""
+    n = 0
+    for dp, dn, fn in os.walk(cdir):
+        for f in sorted(fn):
+            p = os.path.join(dp, f)
+            if f.startswith(".") or os.path.islink(p):
+                continue
+            data = open(p, "rb").read()
+            if not data:
+                continue
+            if how == "flip":
+                i = len(data) // 2
+                data = data[:i] + bytes([data[i] ^ 0x41]) + data[i + 1:]
+            elif how == "truncate":
+                data = data[:max(1, len(data) // 2)]
+            else:
+                data = b"swapped content " + data[::-1]
+            os.chmod(p, 0o644)
+            os.remove(p)          # break the hard link to plz-out first
+            with open(p, "wb") as fh:
+                fh.write(data)
+            n += 1
+    return n
+
+
+def case_c35(bindir, seed, index, tier, extra):
+    r = CaseResult()
+    case = gen_case_c35(seed, tier)
+    vs, stats, sigs = exec_case_c35(bindir, case)
+    r.evals = stats["invocations"]
+    r.stats = stats
+    r.stats.setdefault("scenarios", {})
+    r.stats["scenarios"][case["scenario"]] = 1
+    r.stats.setdefault("declarations", {})
+    r.stats["declarations"][case["decl_kind"]] = 1
+    r.sigs = [sig(case["shape"], case["decl_kind"], case["scenario"], case["compress"], case["binary"], case["corrupt"] if case["scenario"] == "cache-corrupt" else "")]
+    if index < 3:
+        r.sample = case
+    for (c, d, i) in vs[:1]:
+        r.violations.append(Violation(c, d, {"engine": "histsim", "case": case}))
+    return r
+
+
+def replay_c35(bindir, rp):
+    vs, _, _ = exec_case_c35(bindir, rp["case"])
+    return [(c, d) for (c, d, i) in vs]
